@@ -1045,10 +1045,44 @@ func c08sExec(raw json.RawMessage) (*Case, error) {
 		cs.Class += "/hang"
 	}
 	cs.Nontrivial = served > 0 && len(obs.Steps) > 0
-	cs.Tags = []string{fmt.Sprintf("reqs=%d served=%d dropped=%d steps=%d%s", len(obs.Reqs), served, dropped, len(obs.Steps), obs.Note)}
+	cs.Tags = []string{fmt.Sprintf("reqs=%d served=%d dropped=%d steps=%d %s", len(obs.Reqs), served, dropped, len(obs.Steps), obs.Note)}
 	return cs, nil
 }
 
+// c08sCorpus: hand-written schedules over a generated history.  (1) the schedule of
+// c08_unfixed_lost_registration_refuted / c08_fixed_same_schedule_keeps_both (two requesters meet at
+// the subscribers mutex) with a writer that announces itself while they are inside and a third
+// requester knocking at the read lock; (2) the same with the late requesters really waiting inside
+// RLock() / subscribersLock.Lock().
+func c08sCorpus() []any {
+	var out []any
+	for _, commit := range []bool{false, true} {
+		in := c08sGen(NewRng(20260930), 0, "quick").(*c08sInput)
+		in.Tracker, in.Commit = false, commit
+		in.Reqs = []c08sReq{{Kind: "num", Sel: 0}, {Kind: "num", Sel: 1}, {Kind: "cursor", Sel: 2}}
+		in.Sched = []int{
+			1, 1, 3, 3, // requesters 0 and 1: RLock, burst + NewSubscription; both at subscribe:before-append
+			0,          // the producer announces the writer and waits for the two readers
+			5,          // requester 2 knocks: a writer has announced
+			1, 3,       // requester 0 takes subscribersLock, requester 1 finds it taken
+			0,          // still two readers inside
+			1, 1, 3,    // 0 reads and appends; 1 still locked out
+			1,          // 0 unlocks the mutex (commit: 1 gets it at once)
+			3, 3, 3,    // 1 locks / reads / appends
+			1,          // 0 leaves the read lock
+			0,          // one reader still inside
+			2, 2,       // consumer 0 receives from its burst
+			3, 3,       // 1 unlocks the mutex, leaves the read lock: the writer gets the lock
+			5,          // requester 2: the writer holds
+			0, 0, 0, 0, // acknowledged, the Forkable's work, snapshot, first push
+			4, 2, 0, 0, 0, 0, 0, 0, 5, 0, 0, 0, 0, 0, 0, 0, 0, 5, 5, 5, 0, 5, 5, 5, 5,
+		}
+		in.Shape = "sched/corpus"
+		out = append(out, in)
+	}
+	return out
+}
+
 func init() {
-	props["C08S"] = &Prop{Gen: c08sGen, Exec: c08sExec}
+	props["C08S"] = &Prop{Gen: c08sGen, Exec: c08sExec, Corpus: c08sCorpus}
 }
